@@ -27,7 +27,7 @@ def bc(**kw):
     """Constants of Book.tla with defaults (3 grid prices x 2 volumes x both sides x limit/market)."""
     c = dict(MaxPrice=MAXPRICE, NLevels=4, Tick=1, Trading0=True, Ops=["cap", "cancel"], Dts=[1],
              Sides=["B", "A"], Kinds=["L", "M"], Prices=[10, 11, 12], Vols=[1, 2], Traders=[7],
-             ModPrices=[-1], ModVols=[], MaxOrders=3, MaxOps=4, Discipline=True)
+             ModPrices=[-1], ModVols=[], MaxOrders=3, MaxOps=4, Discipline=True, VolCap=0)
     c.update(kw)
     return c
 
@@ -46,6 +46,8 @@ def book_gen(ck, name, cfg=GEN_DRAIN, need=(), timeout=600, workers=12, **kw):
         extra["trunc_every"] = c.pop("trunc_every")
     if "price_offset" in kw:
         extra["price_offset"] = c.pop("price_offset")
+    if "vol_scale" in kw:
+        extra["vol_scale"] = c.pop("vol_scale")
     return ck.gen(name, "BookGen", c, "replay_book", rb_args(c, **extra), cfg=cfg, need=need, timeout=timeout, workers=workers)
 
 
@@ -111,6 +113,18 @@ def cross(ck, q, *names):
             # the trading switch of a multi-asset market across snapshots
             mkt_gen(ck, "x_market_toggle_reload", Ticks=(1, 1), Ops=["cap", "disable", "enable", "reload"], Kinds=["L", "M"], Prices=[10],
                     Vols=[1], MaxOrders=2, MaxOps=4 if q else 5, need=("op_reload", "has_trade"), timeout=300 if q else 1500)
+        elif nm == "big_volumes":
+            # large-volume regime (DESIGN.md 3.6): one specification unit of volume is 1.3 * 10^9 in the real book, so single volumes
+            # and volume changes exceed 2^31 while per-side totals and the traded volume stay below 2^32 (VolCap = 3 units)
+            book_gen(ck, "x_big_volumes", cfg=GEN, Ops=["cap", "cancel", "modify"], Prices=[10, 11], Vols=[1, 2], Kinds=["L", "M"], ModPrices=[-1, 11],
+                     ModVols=["smaller", "larger"], MaxOrders=3, MaxOps=4 if q else 5, VolCap=3, vol_scale=1300000000,
+                     need=("has_trade", "op_modify", "resting_partially_filled_or_resized"), timeout=300 if q else 1500)
+        elif nm == "top_price":
+            # the last grid price below 2^32 - 1 for a tick size that does not divide it (tick 2: 4294967294) as a limit price of
+            # placements and modifications, next to market orders (which carry 2^32 - 1)
+            book_gen(ck, "x_top_price", Ops=["cap", "cancel", "modify"], Tick=2, NLevels=2, Prices=[10, 12, 14], ModPrices=[-1, 14], ModVols=["none", "smaller"],
+                     Kinds=["L", "M"], price_offset=high(2, 14), MaxOrders=3, MaxOps=4 if q else 5, need=("has_trade", "op_modify", "two_sided"),
+                     timeout=300 if q else 1500)
         else:
             raise ToolError("unknown cross stage " + nm)
 
@@ -168,7 +182,7 @@ def c01(tier, seed):
     book_gen(ck, "gen_split_api", Ops=["create", "place", "cancel", "event", "settime"], Dts=[0, 1], Tick=3, NLevels=2,
              Prices=[9, 12], Vols=[1, 2] if q else [1, 2, 3], Kinds=["L", "M"], MaxOrders=2 if q else 3, MaxOps=4 if q else 5,
              need=("has_trade", "unplaced_order"), timeout=300 if q else 1500)
-    cross(ck, q, "ties", "ties_deep", "split_modify")
+    cross(ck, q, "ties", "ties_deep", "split_modify", "big_volumes", "top_price")
     # long random histories over wide alphabets, recorded from the real code and validated by TLC
     ck.traces_stage("rand", "record_book", {"discipline": True}, files=8 if q else 64, runs=2 if q else 4, ops=300)
     # the same without the clock discipline: half of the queue insertions tie
@@ -212,7 +226,7 @@ def c02(tier, seed):
              MaxOrders=3, MaxOps=3 if q else 4, need=("two_sided", "has_trade"), timeout=300 if q else 1500)
     book_gen(ck, "gen_views_reload", cfg=GEN, Ops=["cap", "cancel", "reload"], NLevels=1, Prices=[10, 11], Vols=[1, 3],
              MaxOrders=3, MaxOps=4 if q else 5, need=("two_sided", "op_reload"), timeout=300 if q else 1500)
-    cross(ck, q, "ties_deep", "ties_modify", "split_modify")
+    cross(ck, q, "ties_deep", "ties_modify", "split_modify", "big_volumes")
     # every event of random histories: logged views = views recomputed by TLC from the logged order table alone
     prof = {"discipline": True, "audit_every": 1, "w": {"toggle": 0.6, "reload": 0.4, "modify": 4}}
     ck.traces_stage("rand_views", "record_book", prof, files=8 if q else 64, runs=3 if q else 6, ops=120)
@@ -232,7 +246,7 @@ def c03(tier, seed):
     book_gen(ck, "gen_ledger", cfg=GEN, Ops=["cap", "cancel", "modify", "resettv"], Prices=[10, 11], Vols=[1, 3],
              ModPrices=[-1, 10, 11], ModVols=["smaller", "larger"], MaxOrders=3, MaxOps=4 if q else 5,
              need=("has_trade", "multi_trade", "op_resettv", "op_modify"), timeout=300 if q else 1500)
-    cross(ck, q, "reload_resettv", "ties", "off_modify")
+    cross(ck, q, "reload_resettv", "ties", "off_modify", "big_volumes")
     prof = {"discipline": True, "audit_every": 10, "w": {"toggle": 0.5, "resettv": 1.5, "modify": 5, "reload": 0.5}}
     ck.traces_stage("rand_ledger", "record_book", prof, files=8 if q else 64, runs=2 if q else 4, ops=300)
     python_view(ck, q)
@@ -259,7 +273,7 @@ def c04(tier, seed):
     book_gen(ck, "gen_requests_off", cfg=GEN, Ops=["cap", "place", "cancel", "modify", "event", "enable"], Trading0=False,
              Prices=[10], Vols=[1], ModPrices=[-1, 10], ModVols=["none", "equal", "larger"], MaxOrders=2, MaxOps=4 if q else 5,
              need=("rejected_order",), timeout=300 if q else 1500)
-    cross(ck, q, "ties", "ties_modify", "split_modify")
+    cross(ck, q, "ties", "ties_modify", "split_modify", "top_price")
     prof = {"discipline": True, "p_redundant": 0.3, "audit_every": 25, "w": {"toggle": 0.4, "settime": 1.5, "place": 4, "create": 3}}
     ck.traces_stage("rand_redundant", "record_book", prof, files=8 if q else 64, runs=2 if q else 4, ops=300)
     python_view(ck, q)
@@ -321,7 +335,7 @@ def c06(tier, seed):
              timeout=300 if q else 1500)
     book_gen(ck, "gen_modify_cancel_mkt", Ops=["cap", "modify", "cancel"], Prices=[10, 11], ModPrices=[-1, 10, 11],
              ModVols=MODV, MaxOrders=3 if q else 4, MaxOps=4 if q else 5, need=("op_modify", "cancelled_order"), timeout=300 if q else 1500)
-    cross(ck, q, "ties_modify", "off_modify", "split_modify")
+    cross(ck, q, "ties_modify", "off_modify", "split_modify", "big_volumes", "top_price")
     # modification through the environments: a queued modify instruction is applied when the step processes it, to the order
     # as it is THEN ("omitted fields keep their current values" - current at application, e.g. after a partial fill earlier
     # in the same step); partial fills and price-only / volume-only modifies in one batch, every schedule
@@ -504,6 +518,58 @@ def sim_traces(ck, name, files, runs, steps, profile=None, timeout=900):
                     consts={"MaxPrice": MAXPRICE, "UseHook": True}, spec="TSpecSim", report="SReport", timeout=timeout)
 
 
+SIM_INV = ["Inv_OneLiveOrderPerAgent", "Inv_OrdersAsConfigured", "Inv_SlotsOwn", "Inv_RoundShape", "Inv_OtherAssetsUntouched", "Inv_BookClauses"]
+
+
+def sim_outcomes(ck, name, seeds, timeout=900, **kw):
+    """Outcome sets at the level of a complete simulation (Sim.tla): TLC checks the simulation-level invariants on every
+    reachable state of the runner loop over a set of random agents and prints every reachable state as an allowed outcome of a
+    simulation of k rounds; the real public runner with the real agents (through a derived agent set) is run for k = 1..NSteps
+    under `seeds` seeds each and every real outcome must be one of them.  No hook, no steering of the generator; the share of the
+    allowed outcomes the code produced is reported (and must not be negligible: the specification is not vacuously permissive)."""
+    import time
+    if ck.skip(name):
+        return
+    core.build_harness()
+    c = dict(MaxPrice=MAXPRICE, Tick=1, StepSize=100, T0=0, NLevels=1, NAgents=2, TickLo=10, TickHi=12, VolLo=1, VolHi=2, Rate="mid", NSteps=2, Assets=1, Asset=0)
+    c.update(kw)
+    t0 = time.time()
+    tl, text = core.tlc_check("%s_%s" % (ck.prop, name), "Sim", c, ["INIT SInit", "NEXT SNext", "INVARIANT EmitOutcome"] + ["INVARIANT " + i for i in SIM_INV],
+                              workers=8, timeout=timeout)
+    if not tl["ok"]:
+        bad = [i for i in SIM_INV if ("Invariant %s is violated" % i) in text]
+        raise ToolError("%s: model checking of Sim.tla failed%s:\n%s" % (name, (" (invariant %s does not hold on the MODEL: specification error)" % bad[0]) if bad else "", text[-2500:]))
+    d = os.path.join(core.WORK, "traces", "%s_%s" % (ck.prop, name))
+    os.makedirs(d, exist_ok=True)
+    af = os.path.join(d, "allowed.txt")
+    with open(af, "w") as f:
+        f.write("\n".join(l for l in text.splitlines() if l.startswith('<<"OUT"')) + "\n")
+    rate = {"zero": 0.0, "mid": 0.5, "one": 1.0}[c["Rate"]]
+    cfg = {"tick": c["Tick"], "step": c["StepSize"], "t0": c["T0"], "n_agents": c["NAgents"], "tick_lo": c["TickLo"], "tick_hi": c["TickHi"], "vol_lo": c["VolLo"],
+           "vol_hi": c["VolHi"], "rate": rate, "n_steps": c["NSteps"], "seeds": seeds, "base_seed": ck.seed, "assets": c["Assets"], "asset": c["Asset"]}
+    r = subprocess.run([os.path.join(core.BIN, "sim_outcomes"), "--allowed", af, "--cfg", json.dumps(cfg)], text=True, capture_output=True,
+                       env=dict(os.environ, VERIF_WORK=core.WORK), timeout=timeout)
+    if r.returncode != 0:
+        raise ToolError("%s: sim_outcomes failed: %s" % (name, r.stderr[-1500:]))
+    summ = json.loads(r.stdout.strip().splitlines()[-1])
+    for mm in summ["mismatches"]:
+        ck.violation(name, mm["what"], dict(mm, kind="sim_outcome", consts=c))
+    if summ["allowed"] == 0 or (not summ["n_mismatch"] and summ["seen"] * 4 < summ["allowed"]):
+        raise ToolError("%s: vacuous - the real simulations produced %d of the %d outcomes the specification allows" % (name, summ["seen"], summ["allowed"]))
+    ck.states += tl["distinct"]
+    ck.transitions += tl["generated"]
+    ck.traces += summ["runs"]
+    ck.features[name + ".allowed_outcomes"] = summ["allowed"]
+    ck.features[name + ".allowed_outcomes_produced_by_the_code"] = summ["seen"]
+    ck.stages.append({"stage": name, "kind": "simulation-level outcome sets (Sim.tla): model checking + membership of real outcomes", "constants": c, "tlc_distinct_states": tl["distinct"],
+                      "simulation_invariants_checked": SIM_INV, "real_simulations": summ["runs"], "allowed_outcomes_per_rounds": summ["allowed_per_k"],
+                      "produced_by_the_code_per_rounds": summ["seen_per_k"], "mismatches": summ["n_mismatch"], "wall_s": round(time.time() - t0, 1)})
+    if os.path.exists(af):
+        os.remove(af)
+    log("[%s] Sim.tla: %d states, %d simulation invariants hold; %d real simulations, %d outside the %d allowed outcomes; the code produced %d of them (%.1fs)" % (
+        name, tl["distinct"], len(SIM_INV), summ["runs"], summ["n_mismatch"], summ["allowed"], summ["seen"], time.time() - t0))
+
+
 ENV_RULE = ("paths: every sequence of submissions / steps / toggles of the bounded generator configs; for each path TLC emits the "
             "complete set of (schedule, outcome) pairs the specification allows and the real environment is run on it under several "
             "seeds (outcome must be a member; must equal the outcome of the schedule reported by the hook); non-trivial = ")
@@ -536,6 +602,8 @@ def c08(tier, seed):
     # hook-free: TLC infers a processing order that explains each step (batches up to 8)
     env_traces(ck, "rand_env_inferred", {"max_batch": 8, "p_step": 0.15}, files=6 if q else 48, runs=3 if q else 6, ops=160, hook=False)
     python_view(ck, q, ("env", "numpy"))
+    # the runner's loop itself, hook-free: complete simulations of 1..3 rounds against the outcome sets of Sim.tla
+    sim_outcomes(ck, "sim_outcomes_rounds", seeds=20000 if q else 100000, NSteps=3, StepSize=2, T0=5)
     return ck.finish("model_checking", LEVEL_TEXT, ENV_RULE + "paths whose outcome depends on the schedule + recorded steps with batches of 4 or more",
                      ("gen_env_new_cancel.schedule_matters", "gen_env_modify.schedule_matters", "gen_menv.schedule_matters",
                       "rand_env_hook.steps_with_batch_of_4_or_more", "rand_env_inferred.steps_with_batch_of_4_or_more"))
@@ -842,6 +910,16 @@ def c16(tier, seed):
     # the same relations inside complete simulations (mixed agent sets on one environment, through the real runners); here TLC
     # derives what the agent could observe from its own specification state instead of taking it from the recorder
     sim_traces(ck, "agents_in_simulations", files=6 if q else 48, runs=4 if q else 8, steps=30 if q else 100)
+    # complete small simulations of random agents through the public runners, hook-free: every real outcome must be one of the
+    # outcomes of Sim.tla (runner loop + agent rule + step, every decision and every schedule); TLC checks "at most one live order
+    # per agent", "orders as configured", "other assets untouched" on every reachable state of the model
+    n = 20000 if q else 200000
+    sim_outcomes(ck, "sim_outcomes_random", seeds=n)
+    sim_outcomes(ck, "sim_outcomes_market", seeds=n, Assets=2, Asset=1, Tick=2, T0=7, StepSize=3, VolHi=3, TickLo=5, TickHi=7)
+    sim_outcomes(ck, "sim_outcomes_always_active", seeds=n, NAgents=3, Rate="one")
+    sim_outcomes(ck, "sim_outcomes_never_active", seeds=200, NAgents=3, Rate="zero", NSteps=3)
+    if not q:
+        sim_outcomes(ck, "sim_outcomes_three_rounds", seeds=n, NSteps=3, timeout=1800)
     return ck.finish("model_checking", LEVEL_TEXT, AGENT_RULE + "update calls that queued at least one instruction",
                      ("agents_random.updates_with_instructions", "agents_noise.updates_with_instructions",
                       "agents_momentum.updates_with_instructions", "agents_sigma10.updates_with_instructions",
